@@ -233,6 +233,44 @@ def spec_check(cx, fam, val, opts, c, t):
         expect("NMONTHS", c["NMONTHS"], val)
 
 
+ROW_MAP = {  # scale: country -> the constants are this country's row of the input table
+    "POP": "population", "BASELINE_CROP_KCALS": "crop_kcals", "BASELINE_CROP_FAT": "crop_fat", "BASELINE_CROP_PROTEIN": "crop_protein",
+    "BIOFUEL_KCALS": "biofuel_kcals", "BIOFUEL_FAT": "biofuel_fat", "BIOFUEL_PROTEIN": "biofuel_protein", "FEED_KCALS": "feed_kcals", "FEED_FAT": "feed_fat",
+    "FEED_PROTEIN": "feed_protein", "INITIAL_MILK_CATTLE": "dairy_cows", "INIT_SMALL_ANIMALS": "small_animals", "INIT_MEDIUM_ANIMALS": "medium_animals",
+    "INIT_LARGE_ANIMALS_WITH_MILK_COWS": "large_animals", "SCP_GLOBAL_PRODUCTION_FRACTION": "percent_of_global_capex", "CS_GLOBAL_PRODUCTION_FRACTION": "percent_of_global_production",
+    "INITIAL_SEAWEED_FRACTION": "initial_seaweed_fraction", "SEAWEED_NEW_AREA_FRACTION": "new_area_fraction", "SEAWEED_MAX_AREA_FRACTION": "max_area_fraction",
+    "INITIAL_BUILT_SEAWEED_FRACTION": "initial_built_fraction", "INITIAL_CROP_AREA_FRACTION": "fraction_crop_area", "FISH_DRY_CALORIC_ANNUAL": "aq_kcals",
+    "FISH_FAT_TONS_ANNUAL": "aq_fat", "FISH_PROTEIN_TONS_ANNUAL": "aq_protein", "TONS_MILK_ANNUAL": "dairy", "TONS_BEEF_ANNUAL": "beef",
+    "MILK_YIELD_KG_PER_MILK_BEARING_ANIMAL_PER_YEAR": "milk_yield_kg_per_milk_bearing_animal_per_year", "KG_MEAT_PER_PIG": "kg_meat_per_pig", "KG_MEAT_PER_CHICKEN": "kg_meat_per_chicken",
+}
+
+
+def row_mapping(cx, c):
+    row = cx.row
+    n = 0
+    for key, col in ROW_MAP.items():
+        n += 1
+        if float(c[key]) != float(row[col]):
+            cx.bad("country_constant_not_from_country_row", "scale=country: %s is %r, the country row has %s = %r" % (key, c[key], col, row[col]), key=key, column=col)
+    for key, want in (("HUMAN_INEDIBLE_FEED_BASELINE_MONTHLY", row["grasses_baseline"] / 12), ("TONS_CHICKEN_AND_PORK_ANNUAL", row["chicken"] + row["pork"]),
+                      ("INITIAL_CROP_AREA_HA", row["crop_area_1000ha"] * 1000)):
+        n += 1
+        if abs(float(c[key]) - float(want)) > 1e-12 * max(1.0, abs(float(want))):
+            cx.bad("country_constant_not_from_country_row", "scale=country: %s is %r, the country row gives %r" % (key, c[key], want), key=key)
+    for mon in ("jan", "feb", "mar", "apr", "may", "jun", "jul", "aug", "sep", "oct", "nov", "dec"):
+        n += 1
+        if float(c["END_OF_MONTH_STOCKS"][mon.upper()]) != float(row["stocks_kcals_" + mon]):
+            cx.bad("country_constant_not_from_country_row", "scale=country: END_OF_MONTH_STOCKS[%s] is %r, the row has %r" % (mon.upper(), c["END_OF_MONTH_STOCKS"][mon.upper()], row["stocks_kcals_" + mon]), key="END_OF_MONTH_STOCKS." + mon)
+    g = {k: v for k, v in c["SEAWEED_GROWTH_PER_DAY"].items()}
+    for k, v in g.items():
+        n += 1
+        if float(v) != float(row["seaweed_growth_per_day_" + k]):
+            cx.bad("country_constant_not_from_country_row", "scale=country: seaweed growth %s is %r, the row has %r" % (k, v, row["seaweed_growth_per_day_" + k]), key="SEAWEED_GROWTH_PER_DAY." + k)
+    if c["COUNTRY_CODE"] != row["iso3"]:
+        cx.bad("country_constant_not_from_country_row", "COUNTRY_CODE %r for row %r" % (c["COUNTRY_CODE"], row["iso3"]), key="COUNTRY_CODE")
+    cx.n["row_mapping_cells"] += n
+
+
 def values(case):
     cx = Ctx(case["iso"])
     base = cx.base()
@@ -242,6 +280,8 @@ def values(case):
     except BaseException as e:  # noqa: BLE001
         cx.bad("documented_option_rejected", "base option vector rejected: %r" % (e,), family="base")
         return cx
+    if not cx.glob:
+        row_mapping(cx, c0)
     for f, vals in fam.items():
         for v in vals:
             o = copy.deepcopy(base)
@@ -684,7 +724,7 @@ def summarize(cases, records, tier):
     for r in ok:
         tot.update(r["obs"]["counts"])
     kinds = collections.Counter(r["obs"]["kind"] for r in ok)
-    ev = sum(v for k, v in tot.items() if k in ("values", "unknown_values", "missing_keys", "overrides", "head_overrides", "ordered_pairs", "e2e_rejections", "out_of_range_overrides", "wrong_scale_values", "unsupported_values", "all_set_checks"))
+    ev = sum(v for k, v in tot.items() if k in ("values", "unknown_values", "missing_keys", "overrides", "head_overrides", "ordered_pairs", "e2e_rejections", "out_of_range_overrides", "wrong_scale_values", "unsupported_values", "all_set_checks", "row_mapping_cells"))
     cov = {
         "evaluations": int(ev),
         "distinct_nontrivial": int(tot.get("values", 0) + tot.get("head_overrides", 0) + tot.get("ordered_pairs", 0)),
